@@ -90,6 +90,11 @@ for _pid in ("C01", "C02", "C03", "C04", "C07", "C08", "C09", "C15", "C17", "C19
     _t = TABLE[_pid]
     TABLE[_pid] = (_t[0] + " + kernels re-translated from the Python text every run and proved to simulate the model", _t[1] + GEN, _t[2], _t[3])
 
+FOOT = (" FOOTPRINTS FROM THE SOURCE: for every generated kernel (Wigner.H and its five steps, the three fill kernels, _evaluate_Horner, _rotate_Horner, _complex_powers, the Euler-phase kernel) it is proved, for every size, arithmetic and memory content, that the memory after the call differs from the memory before it at most on the arrays the kernel is handed for writing (Footprint.*_only, by a tactic that decomposes the regenerated text: it succeeds iff every store names a listed array); hence no kernel writes a coefficient table, an input or another call's array, and the Wigner.D chain that re-reads its inputs in place equals the chain with captured inputs (Footprint.gen_D_chain_inplace). ")
+for _pid in ("C09", "C10", "C17"):
+    _t = TABLE[_pid]
+    TABLE[_pid] = (_t[0], _t[1] + FOOT, _t[2], _t[3])
+
 NOT_YET = {}
 
 
